@@ -152,6 +152,8 @@ def _replay_route_vs_manual(shape):
         from ..replayer import run_scenario
         hops = ROUTES[shape]
         jops = [{'mantra_swap': {'token_in_denom': a, 'token_out_denom': bb, 'pool_identifier': pid}} for a, bb, pid in hops]
+        if label == 'delivered_at_least_minimum_receive':
+            return _replay_minimum_receive(shape, jops)
         cands = []
         if all(k in m for k in ('reserve_x', 'reserve_y', 'reserve_z', 'reserve_w', 'offer')):
             cands.append(dict(x=m['reserve_x'], y=m['reserve_y'], z=m['reserve_z'], w=m['reserve_w'], offer=m['offer'],
@@ -197,6 +199,34 @@ def _replay_route_vs_manual(shape):
     return rb
 
 
+def _replay_minimum_receive(shape, jops):
+    """native: run the route once to learn what it delivers (D), then from the same state with minimum_receive = D + 1: it must be refused"""
+    from .c02 import _mints
+    from ..replayer import run_scenario
+    final = ROUTES[shape][-1][1]
+    for ps in ROUTE_PRESETS4:
+        fees = (ps['fees'][0], ps['fees'][1], ps['fees'][2], [])
+        base = [{'op': 'set_pool', 'pool': pool_json('p1', ['uA', 'uB'], [6, 6], [ps['x'], ps['y']], 'constant_product', fees)},
+                {'op': 'set_pool', 'pool': pool_json('p2', ['uB', 'uC'], [6, 6], [ps['z'], ps['w']], 'constant_product', fees)}]
+        base += _mints([('pool_manager', [('uA', ps['x']), ('uB', ps['y'] + ps['z']), ('uC', ps['w'])]), ('trader', [('uA', ps['offer'])])])
+
+        def run(minimum):
+            sc = {'setup': {}, 'steps': base + [{'op': 'execute', 'contract': 'pool_manager', 'sender': 'trader', 'funds': [coin_j('uA', ps['offer'])],
+                                                 'msg': {'execute_swap_operations': {'operations': jops, 'max_slippage': '0.5', 'receiver': '@alice',
+                                                                                     'minimum_receive': None if minimum is None else str(minimum)}}},
+                                                {'op': 'balance', 'addr': 'alice', 'denom': final}]}
+            return sc, run_scenario(sc).get('results')
+        _, r0 = run(None)
+        if not r0 or 'ok' not in r0[-2]:
+            continue
+        D = int(r0[-1]['ok'])
+        sc, r1 = run(D + 1)
+        if r1 and 'ok' in r1[-2]:
+            why = 'route %s delivers %d %s but executes with minimum_receive = %d' % (shape, int(r1[-1]['ok']), final, D + 1)
+            return sc, (lambda o, w=why: (True, w))
+    return None
+
+
 def _ob_route(shape):
     hops = ROUTES[shape]
 
@@ -224,7 +254,8 @@ def _ob_route(shape):
         ops = [swap_op(a, bb, pid) for a, bb, pid in hops]
         ch = Chain(I, CONTRACTS)
         pre = b.snapshot()
-        st, resp = ch.execute('trader', PM, route_msg(ops, max_slippage=Some(5 * 10 ** 17), receiver=Some('alice')), [coin_v('uA', o)])
+        mn = I.sym('minimum_receive', hi=U128)
+        st, resp = ch.execute('trader', PM, route_msg(ops, max_slippage=Some(5 * 10 ** 17), receiver=Some('alice'), minimum=Some(mn)), [coin_v('uA', o)])
         if st != 'ok':
             I.outcome('route_rejected')
             return
@@ -238,6 +269,7 @@ def _ob_route(shape):
             I.check('hop_consumes_exactly_the_previous_output', smt.And(din == a, smt.Eq(amt_in, prev)))
             prev = vals[0]
         final = hops[-1][1]
+        I.check('delivered_at_least_minimum_receive', b.get('alice', final) - pre.get('alice', final) >= mn)
         for d in ('uA', 'uB', 'uC'):
             got = simp(b.get('alice', d) - pre.get('alice', d))
             I.check('only_the_final_output_reaches_the_receiver', smt.Eq(got, prev if d == final else 0))
@@ -261,7 +293,7 @@ for _shape in ROUTES:
     obligation('C04', 'R1.route_hops_%s' % _shape, entries=['execute', 'execute_swap_operations', 'perform_swap', 'assert_operations'], kind='S',
                tier='thorough' if len(ROUTES[_shape]) > 3 else 'quick',
                statement='routed swap %s (incl. routes that return to the offer denom): every hop offers exactly what the previous hop returned (the first: the funds sent); '
-                         'only the final output reaches the receiver; the sender pays the offer only; per denom the fee collector receives the protocol fees and the '
+                         'only the final output reaches the receiver and it is at least the stated minimum_receive (symbolic); the sender pays the offer only; per denom the fee collector receives the protocol fees and the '
                          'supply drops by the burn fees of the hops that pay out that denom; the contract balance beyond the summed reserves is unchanged' % _shape,
                bounds='pools uA/uB and uB/uC, reserves/offer/excess [0,2^128), real is_valid fees; pricing kernel abstracted (results arbitrary u128)', covers=['ok'],
                abstractions=[ABSTRACT_PRICING_NOTE], opts={'abstract': ABSTRACT_PRICING}, replay=_replay_route_vs_manual(_shape))(_ob_route(_shape))
